@@ -129,6 +129,22 @@ Theorem C16_reserved_id_refuted : forall c v,
   outcome_of (step c None (init [("_x", v)]) (Add 0)) = OErr (XServer 400).
 Proof. exact reserved_id_rejected. Qed.
 
+(* The revision store is keyed by document URL, not by object: when two local objects are attached to the
+   same document (cell 0 added, document deleted behind the client's back, cell 1 added under the same id),
+   a lookup that refreshes the cached replica (cell 1) also makes the OTHER replica committable, although it
+   has never seen the second actor's write (payload 7), which is overwritten.  The no-lost-update theorem
+   above is about the client's recorded revision; per replica it does not hold.
+   Known finding C16:commit:stale-replica-accepted-multi-replica. *)
+Example C16_second_replica_refuted :
+  let c := mkCfg false "h:1/db" in
+  let ops := [Add 0; ExtDel "a"; Add 1; ExtPut "a" 7; GetId "a"; Modify 0 5; Commit 0] in
+  let w := fold_left (fun w o => world_of (step c None w o)) ops (init [("a", 1); ("a", 2)]) in
+  (outcome_of (step c None (fold_left (fun w o => world_of (step c None w o)) (removelast ops) (init [("a", 1); ("a", 2)]))
+                   (Commit 0)),
+   live (w_sv w) "a")
+  = (ODone, Some (5, 5)).
+Proof. vm_compute. reflexivity. Qed.
+
 (* Non-vacuity: two local objects for the id "a/b c" (cells 0, 1) and one for "é"; the second actor
    overwrites the document behind the client's back: the commit is refused, update() resynchronises,
    the next commit goes through and is what a lookup returns. *)
